@@ -21,6 +21,13 @@ Fixpoint find_child (chs : list node) (fs : list val) (name : string) : option (
   | _, _ => None
   end.
 
+Definition nav_fields (rec : node -> val -> navres) (seg : string) : list node -> list val -> navres :=
+  fix go (chs : list node) (fs : list val) : navres :=
+    match chs, fs with
+    | c :: cr, f :: fr => if String.eqb (n_name c) seg then rec c f else go cr fr
+    | _, _ => NNone WUnknownField
+    end.
+
 (* [nav n v path]: v is a value of the Go type n describes (pointer flag included) *)
 Fixpoint nav (n : node) (v : val) (path : list string) {struct n} : navres :=
   match path with
@@ -33,11 +40,7 @@ Fixpoint nav (n : node) (v : val) (path : list string) {struct n} : navres :=
         | typeStruct =>
           match x with
           | VStruct fs =>
-            (fix go (chs : list node) (fs : list val) : navres :=
-               match chs, fs with
-               | c :: cr, f :: fr => if String.eqb (n_name c) seg then nav c f rest else go cr fr
-               | _, _ => NNone WUnknownField
-               end) chld fs
+            nav_fields (fun c f => nav c f rest) seg chld fs
           | _ => NUnspec
           end
         | typeMap =>
